@@ -669,6 +669,17 @@ def fanjoin(n):
     return {"name": "fanjoin%d" % n, "inputs": {"IN": 0}, "out": "d", "nodes": nodes}
 
 
+def prodcons(needs, name=None):
+    """Several producers, consumers that need one or more of them, one join: `needs` maps a consumer id to the list of
+    producer ids it reads (e.g. the double diamond {"x": ["a1"], "y": ["a2"], "z": ["a1", "a2"]}); every producer reads IN,
+    the join d reads every consumer.  fanjoin(n) is prodcons({"b1": ["a"], ..., "bn": ["a"]})."""
+    prods = sorted({p for ps in needs.values() for p in ps})
+    nodes = [{"id": p, "type": "exec", "in": ["IN"]} for p in prods]
+    nodes += [{"id": c, "type": "exec", "in": list(ps)} for c, ps in sorted(needs.items())]
+    nodes.append({"id": "d", "type": "exec", "in": sorted(needs)})
+    return {"name": name or "prodcons%dx%d" % (len(prods), len(needs)), "inputs": {"IN": 0}, "out": "d", "nodes": nodes}
+
+
 def shape_jobs(shape):
     """Job names of the shape: exec node x tag (scatter members get one job per element)."""
     n = max(1, next(iter(shape["inputs"].values())))
